@@ -359,7 +359,11 @@ Section Gen.
     match p with
     | MPatAny _ _ => cret ([PBc IPop; PBc (IPush (VBool true))], [])
     | MPatType _ _ _ tyname =>
-        cret ([PBc (IPush (VIdent #"type")); PBc (ICall 1); PBc (IPush (VIdent (utf8_encode tyname))); PBc IEq], [])
+        (* the parser builds a type pattern only from the name of a built-in type (Parser.p_pattern); any other
+           name here is a state the implementation cannot reach *)
+        if is_type_name (utf8_encode tyname)
+        then cret ([PBc (IPush (VIdent #"type")); PBc (ICall 1); PBc (IPush (VIdent (utf8_encode tyname))); PBc IEq], [])
+        else fun _ => CPanic
     | MPatCmp _ _ op o =>
         let+ co := c_cor o in
         cret (into_bytecode (cp_node co) ++ [PBc (cmp_instr op)], cp_params co)
